@@ -353,13 +353,21 @@ def ia32_far(obj, Mod, RM, data):
     op1.size = size+16
     obj.operands = [op1]
 
-@ispec_ia32("*>[ {0f}{01} /4 ]", mnemonic="SMSW", type=type_system)
 @ispec_ia32("*>[ {0f}{01} /7 ]", mnemonic="INVLPG", type=type_system)
 def ia32_op48(obj, Mod, RM, data):
     op1, data = getModRM(obj, Mod, RM, data)
     if op1._is_reg:
         raise InstructionError(obj)
     op1.size = 32 if obj.misc["opdsz"] == 16 else 48
+    obj.operands = [op1]
+
+
+# r16/32, m16
+@ispec_ia32("*>[ {0f}{01} /4 ]", mnemonic="SMSW", type=type_system)
+def ia32_smsw(obj, Mod, RM, data):
+    op1, data = getModRM(obj, Mod, RM, data)
+    if op1._is_mem:
+        op1.size = 16
     obj.operands = [op1]
 
 
